@@ -58,7 +58,7 @@ REPS = [
     dict(rep="quick", labels="str", alabels="tuple", explicit_list=False, dist="uniform"),
     dict(rep="subclass", labels="int", alabels="int", explicit_list=False, dist="dict_zeros"),
 ]
-DIFFS = [(1, 100000), (1, 100000), (1, 1000), (1, 100), (1, 20)]
+DIFFS = [(1, 100000), (1, 100000), (1, 1000), (1, 100), (1, 20), (1, 10 ** 9), (1, 10 ** 9), (1, 10 ** 7)]
 
 SITE = {
     "step-outside-the-mdp": "RMAX._training",
@@ -72,6 +72,7 @@ SITE = {
     "reachable-state-without-q": "RMAX.train_on.q_values",
     "empirical-bellman-residual": "RMAX._value_iteration",
     "policy-not-greedy": "RMAX._create_policy",
+    "unknown-pair-not-exactly-optimistic": "RMAX.train_on.q_values",
 }
 
 
@@ -113,12 +114,14 @@ REUSE = {"learner-reused-on-other-mdp": "other-shape", "learner-reused-on-same-m
 def make_case(rng, *, shape=None, tiny=False, neartie=False):
     """One (instance, representation, configuration)."""
     while True:
-        GN, GD = rng.choice([(1, 2), (3, 4), (9, 10), (9, 10)])
+        GN, GD = rng.choice([(1, 2), (3, 4), (9, 10), (9, 10), (4, 5), (7, 10), (19, 20)])
         PD = rng.choice([2, 4]) if not neartie else 2
         n_na = rng.choice([1, 2, 2, 3, 3, 3, 4, 5]) if not tiny else rng.choice([1, 2])
         n_abs = rng.choice([1, 1, 2])
         K = rng.choice([1, 2, 2, 3]) if not neartie else rng.choice([2, 2, 3])
-        rew = rng.choice([(-1, 0, 1, 2), (0, 1), (-2, -1, 0), (-2, -1), (0, 1, 3), (-1, 1)])
+        # maximal rewards that are not powers of two: rmax/(1-gamma) then depends on how it is rounded
+        rew = rng.choice([(-1, 0, 1, 2), (0, 1), (-2, -1, 0), (-2, -1), (0, 1, 3), (-1, 1), (0, 2, 5), (-1, 3, 7),
+                          (1, 10), (0, 3, 6)])
         m = gen.rand_mdp(rng, n_na=n_na, n_abs=n_abs, K=K, PD=PD, GN=GN, GD=GD, rewards=rew, ID=rng.choice([2, 4]),
                          force_progress=True, uniform_actions=True, ghost=rng.random() < 0.5,
                          init_on_abs=0.15)
@@ -299,6 +302,27 @@ def _warmup_mdp(rmax, gamma):
                            is_absorbing=lambda s: s == "w1", discount_rate=gamma)
 
 
+def collect(res, b, m):
+    """Project a Result to abstract indices: returned rows, exact ranks, policy support (queried now)."""
+    o = {"events": list(res.event_listener_results), "q": {}, "pol": {}, "rk": {}}
+    qv = res.q_values
+    for s in range(m["N"]):
+        lab = b.slabel[s]
+        if lab in qv and all(al in qv[lab] for al in b.alabel):
+            o["q"][s] = [float(qv[lab][al]) for al in b.alabel]
+            # dense ranks of the returned values themselves (exact comparison, no float conversion)
+            vals = [qv[lab][al] for al in b.alabel]
+            o["rk"][s] = [1 + len({w for w in vals if w < v}) for v in vals]
+            dist = res.policy.action_dist(lab)
+            o["pol"][s] = [0] * m["K"]
+            for a_lab, p in dist.items():
+                if p > 0:
+                    o["pol"][s][b.aidx(a_lab)] = 1
+    o["state_list"] = list(b.mdp.state_list)
+    o["action_list"] = list(b.mdp.action_list)
+    return o
+
+
 def run_real(case):
     """Run RMAX.train_on on the case; returns a dict with raw observations (labels -> abstract indices)."""
     from msdm.algorithms.rmax import RMAX
@@ -327,6 +351,7 @@ def run_real(case):
         out["skip"] = "near-tie family: the maximal reward is a lowered one"
         return out
     out["rmax"] = int(rmax_f)
+    out["rmax_f"], out["g_f"] = rmax_f, float(b.mdp.discount_rate)
     diff = cfg["diff"][0] / cfg["diff"][1]
     rec_cls = _recorder_class()
     learner = RMAX(episodes=cfg["episodes"], rmax=rmax_f, num_transition_samples=cfg["thr"],
@@ -337,6 +362,7 @@ def run_real(case):
         raise RunTooLong()
     prev = signal.signal(signal.SIGALRM, _alarm)
     signal.alarm(RUN_LIMIT_S)
+    first = None
     try:
         reuse = cfg.get("reuse")
         reuse = "other-shape" if reuse == 1 else reuse
@@ -349,37 +375,27 @@ def run_real(case):
             learner.episodes = cfg["episodes"]
         elif reuse in ("same-mdp", "same-shape"):
             # the same learner object is first trained on the same MDP / on another MDP of the same shape;
-            # the run that is recorded and judged is the second one
+            # both runs are recorded and judged (the first one's Result is only queried after the second run)
             if reuse == "same-mdp":
-                warm = b.mdp
+                bw, mw = b, m
             else:
-                warm = build.build_mdp(same_shape_instance(mr, random.Random(digest({"w": m}))),
-                                       rng=random.Random(digest({"m": m, "rep": rep})), **rep).mdp
-                if float(np.max(warm.reward_matrix)) != rmax_f or len(warm.state_list) != len(b.mdp.state_list):
+                mw = same_shape_instance(mr, random.Random(digest({"w": m})))
+                bw = build.build_mdp(mw, rng=random.Random(digest({"m": m, "rep": rep})), **rep)
+                if float(np.max(bw.mdp.reward_matrix)) != rmax_f or len(bw.mdp.state_list) != len(b.mdp.state_list):
                     out["skip"] = "same-shape warm-up MDP has another maximal reward or state list"
                     return out
             learner.episodes = cfg.get("warm_episodes", 10)
-            learner.train_on(warm)
+            res1 = learner.train_on(bw.mdp)
             learner.episodes = cfg["episodes"]
+            first = (res1, bw, mw)
         res = learner.train_on(b.mdp)
-        out["events"] = list(res.event_listener_results)
-        qv = res.q_values
-        out["q"] = {}
-        out["pol"] = {}
-        for s in range(m["N"]):
-            lab = b.slabel[s]
-            if lab in qv and all(al in qv[lab] for al in b.alabel):
-                out["q"][s] = [float(qv[lab][al]) for al in b.alabel]
-                # dense ranks of the returned values themselves (exact comparison, no float conversion)
-                vals = [qv[lab][al] for al in b.alabel]
-                out.setdefault("rk", {})[s] = [1 + len({w for w in vals if w < v}) for v in vals]
-                dist = res.policy.action_dist(lab)
-                out["pol"][s] = [0] * m["K"]
-                for a_lab, p in dist.items():
-                    if p > 0:
-                        out["pol"][s][b.aidx(a_lab)] = 1
-        out["state_list"] = list(b.mdp.state_list)
-        out["action_list"] = list(b.mdp.action_list)
+        out.update(collect(res, b, m))
+        if first is not None:
+            # the Result of the earlier call is only looked at now, after the learner has been trained again:
+            # it must still be self-consistent (its policy greedy for its own q_values)
+            res1, bw, mw = first
+            out["first"] = dict(collect(res1, bw, mw), b=bw, rmax=out["rmax"], m=mw, rmax_f=out["rmax_f"],
+                                g_f=float(bw.mdp.discount_rate))
     except MissingLocals as e:
         out["skip"] = f"listener locals() lacks {e}"
         out["drift"] = "listener-locals-missing"
@@ -597,6 +613,58 @@ def py_judge_q(t, cnt, tcnt, rsum, o, reach):
     return bad
 
 
+def py_model(t):
+    """The count-limited model of the recorded history (first thr samples of every pair)."""
+    N, K, thr = t["N"], t["K"], t["thr"]
+    cnt = [[0] * K for _ in range(N)]
+    tcnt = [[[0] * N for _ in range(K)] for _ in range(N)]
+    for e in t["ev"]:
+        if e["k"] == "step":
+            s, a, ns = e["s"], e["a"], e["ns"]
+            if 1 <= s <= N and 1 <= a <= K and 1 <= ns <= N and cnt[s - 1][a - 1] < thr:
+                cnt[s - 1][a - 1] += 1
+                tcnt[s - 1][a - 1][ns - 1] += 1
+    return cnt, tcnt
+
+
+def annotate_exact(t, raw_final, rmax_f, g_f, diff):
+    """Exact side of the final event: facts about the raw 53-bit floats that 32-bit integers cannot hold.
+
+    xo[s][a] = 1 iff the returned value equals the optimistic value rmax/(1-gamma) exactly, i.e. it is the double
+               nearest to the rational quotient of the two double parameters, or the IEEE evaluation of
+               rmax / (1 - gamma) (the two coincide whenever 1 - gamma is exact, i.e. gamma >= 1/2)
+    xr[s][a] = 1 iff |Q(s,a) - (Rhat + gamma sum_n That(n) max Q(n,.))| < diff + B 2^-40 in exact rational arithmetic
+               on the model (xc, xt) of the recorded history; B 2^-40 covers the float64 evaluation of the code's own
+               stopping test ((N+6) u B with u = 2^-53, N <= 7) with a factor > 500 to spare
+    TLC decides which pairs are known / untried and checks that (xc, xt) is its own model."""
+    N, K, thr = t["N"], t["K"], t["thr"]
+    fin = t["ev"][-1]
+    if fin["k"] != "final":
+        return
+    cnt, tcnt = py_model(t)
+    g = F(t["GN"], t["GD"])
+    refs = {float(F(rmax_f) / (1 - F(g_f))) if g_f != 1 else None, rmax_f / (1.0 - g_f)}
+    B = F(max(rewards_bound(t), abs(t["rmax"]), 1)) / (1 - g)
+    slack = B / 2 ** 40
+    V = {s: max(F(x) for x in row) if all(math.isfinite(x) for x in row) else None for s, row in raw_final.items()}
+    xo = [[] for _ in range(N)]
+    xr = [[] for _ in range(N)]
+    for s, row in raw_final.items():
+        xo[s] = [1 if any(r is not None and x == r for r in refs) else 0 for x in row]
+        xr[s] = [1] * K
+        for a in range(K):
+            if cnt[s][a] >= thr:
+                succ = [n for n in range(N) if tcnt[s][a][n]]
+                if not math.isfinite(row[a]) or any(V.get(n, 0) is None for n in succ):
+                    xr[s][a] = 0
+                    continue
+                rhs = sum(F(tcnt[s][a][n], thr) * (t["R"][s][a][n] - (F(t["RE"][s][a][n], EPSD) if "RE" in t else 0)
+                                                  + g * V.get(n, 0)) for n in succ)
+                if abs(F(row[a]) - rhs) >= diff + slack:
+                    xr[s][a] = 0
+    fin.update(xo=xo, xr=xr, xc=cnt, xt=tcnt)
+
+
 def py_validate(t):
     """Expected `fail` set, final model and exact fixed point, computed without TLA+."""
     N, K, thr = t["N"], t["K"], t["thr"]
@@ -640,33 +708,13 @@ def py_validate(t):
                 if len(rk[s]) == K:
                     if not any(pol[s]) or any(pol[s][a] and rk[s][a] < max(rk[s]) for a in range(K)):
                         fail.add(("policy-not-greedy", pos))
+                if len(e["xo"][s]) == K:
+                    for a in range(K):
+                        if cnt[s][a] < thr and e["xo"][s][a] == 0:
+                            fail.add(("unknown-pair-not-exactly-optimistic", pos))
+                        if cnt[s][a] >= thr and e["xr"][s][a] == 0:
+                            fail.add(("empirical-bellman-residual", pos))
     return fail, cnt, tcnt, rsum
-
-
-def exact_final_check(t, raw_final, cnt, tcnt, diff):
-    """Clauses on the raw floats with exact rational arithmetic (no quantisation). Returns failing clauses."""
-    N, K, thr = t["N"], t["K"], t["thr"]
-    g = F(t["GN"], t["GD"])
-    vmax = F(t["rmax"]) / (1 - g)
-    slack = F(1, 10 ** 9) * max(1, abs(vmax))
-    bad = set()
-    if any(not all(math.isfinite(x) for x in row) for row in raw_final.values()):
-        return {"non-finite"}
-    V = {s: max(F(x) for x in row) for s, row in raw_final.items()}
-    for s, row in raw_final.items():
-        for a in range(K):
-            q = F(row[a])
-            if q > vmax + slack:
-                bad.add("exceeds-vmax")
-            if cnt[s][a] < thr:
-                if abs(q - vmax) > slack:
-                    bad.add("unknown-pair-not-optimistic")
-            else:
-                rhs = sum(F(tcnt[s][a][n], thr) * (t["R"][s][a][n] - (F(t["RE"][s][a][n], EPSD) if "RE" in t else 0)
-                                                  + g * V.get(n, 0)) for n in range(N) if tcnt[s][a][n])
-                if abs(q - rhs) >= diff + slack:
-                    bad.add("empirical-bellman-residual")
-    return bad
 
 
 # --------------------------------------------------------------------------------------------
@@ -703,18 +751,31 @@ def judge_cases(ctx, cases, *, mutate=None, confirm=True):
             ctx.violation(signature(c, "raises-" + out["error_type"]),
                           f"RMAX.train_on raised {out['error']}", {"case": strip(c), "clause": "error"})
             continue
-        pr = to_trace(c, out, tag=str(len(traces) + 1))
-        if pr is None:
-            ctx.skip("numbers too large for the 30-bit integer judge")
-            continue
-        t, raw = pr
-        if len(t["ev"]) > 1500:
-            ctx.skip("trace longer than 1500 events")
-            continue
-        if mutate is not None:
-            mutate(len(traces), t)
-        traces.append(t)
-        meta.append((c, raw))
+        todo = [(c, out, c)]
+        if out.get("first"):
+            # the earlier Result of a reused learner, queried after the learner was trained again
+            ctx.evaluations += 1
+            c1 = strip(c)
+            c1["m"] = out["first"]["m"]
+            c1["cfg"] = dict(c["cfg"], episodes=c["cfg"].get("warm_episodes", 10), reuse=0)
+            c1["shape"] = "earlier-result-queried-after-retraining"
+            todo.append((c1, out["first"], c))
+        for ct, ot, origin in todo:
+            pr = to_trace(ct, ot, tag=str(len(traces) + 1))
+            if pr is None:
+                ctx.skip("numbers too large for the 30-bit integer judge")
+                continue
+            t, raw = pr
+            if len(t["ev"]) > 1500:
+                ctx.skip("trace longer than 1500 events")
+                continue
+            annotate_exact(t, raw[-1], ot["rmax_f"], ot["g_f"], F(ct["cfg"]["diff"][0], ct["cfg"]["diff"][1]))
+            if mutate is not None:
+                mutate(len(traces), t)
+                if t["ev"][-1]["k"] == "final":      # the corrupted trace is what both judges see: keep the models in step
+                    t["ev"][-1]["xc"], t["ev"][-1]["xt"] = py_model(t)
+            traces.append(t)
+            meta.append((ct, raw, origin))
     if not traces:
         return []
     res = run_tlc(ctx.workdir / f"trace{ctx.counters.get('trace_batches', 0)}", MODULE, CFG_TRACE,
@@ -733,7 +794,7 @@ def judge_cases(ctx, cases, *, mutate=None, confirm=True):
     by = {r["tag"]: r for r in res.records}
     verdicts = []
     redo = []
-    for k, (t, (c, raw)) in enumerate(zip(traces, meta)):
+    for k, (t, (c, raw, origin)) in enumerate(zip(traces, meta)):
         r = by.get(t["tag"])
         if r is None:
             raise TLCFailure(f"no verdict record for trace {t['tag']} (the trace actions must be total)")
@@ -743,7 +804,8 @@ def judge_cases(ctx, cases, *, mutate=None, confirm=True):
         pfail, cnt, tcnt, rsum = py_validate(t)
         if pfail != tfail:
             raise TLCFailure(f"TLA+ judge and Python judge disagree on trace {t['tag']}: {sorted(tfail)} vs {sorted(pfail)}")
-        if r["cnt"] != cnt or r["tcnt"] != tcnt or r["rsum"] != rsum:
+        if r["cnt"] != cnt or r["tcnt"] != tcnt or r["rsum"] != rsum or \
+                any(x[1] == "exact-side-model-differs" for x in tdrift):
             raise TLCFailure(f"TLA+ bookkeeping and Python bookkeeping disagree on trace {t['tag']}")
         ctx.count("judge_crosschecks")
         diff = F(c["cfg"]["diff"][0], c["cfg"]["diff"][1])
@@ -752,8 +814,8 @@ def judge_cases(ctx, cases, *, mutate=None, confirm=True):
         if cut:
             for tag, pos in sorted(tfail):
                 ctx.violation(signature(c, tag), f"{SITE.get(tag, 'RMAX')}: clause '{tag}' fails at event {pos} of a run that "
-                              f"did not return within {RUN_LIMIT_S}s", {"case": strip(c), "clause": tag, "position": pos})
-            ctx.drift("final:run-did-not-return", {"case": digest(strip(c))})
+                              f"did not return within {RUN_LIMIT_S}s", {"case": strip(origin), "clause": tag, "position": pos, "trace": c["shape"]})
+            ctx.drift("final:run-did-not-return", {"case": digest(strip(origin))})
             verdicts.append((tfail, tdrift))
             continue
         if t["orc"] == 1 and not any(x[0].startswith("step") for x in tfail):
@@ -763,31 +825,25 @@ def judge_cases(ctx, cases, *, mutate=None, confirm=True):
                 raise TLCFailure(f"TLA+ fixed point and Python fixed point disagree on trace {t['tag']}: {tq} vs {qs}")
             ctx.count("oracle_crosschecks")
             # contraction: the returned table is within residual / (1 - gamma) of the exact machine
-            ex = exact_final_check(t, raw[-1], cnt, tcnt, diff)
-            if not ex:
+            if not tfail:
                 far = max([abs(F(x) - qs[s][a]) for s, row in raw[-1].items() for a, x in enumerate(row)] + [F(0)])
-                slack = F(1, 10 ** 9) * max(1, abs(F(t["rmax"]) / (1 - g)))
+                slack = F(max(rewards_bound(t), abs(t["rmax"]), 1)) / (1 - g) / 2 ** 40
                 eps = F(1, EPSD) if "RE" in t else F(0)
                 if far > (diff + eps + 2 * slack) / (1 - g) + slack:
                     raise TLCFailure(f"trace {t['tag']}: residual clause holds exactly but the table is {float(far)} "
                                      f"from the exact fixed point (oracle or judge wrong)")
-        ex = exact_final_check(t, raw[-1], cnt, tcnt, diff)
-        sub = ex - {x[0] for x in tfail}
-        if sub:
-            ctx.count("clause_failures_below_quantisation_resolution")
-            ctx.drift("below-resolution", {"case": digest(strip(c)), "clauses": sorted(sub)})
         # ---- verdicts
         for tag, pos in sorted(tfail):
             ctx.violation(signature(c, tag), f"{SITE.get(tag, 'RMAX')}: clause '{tag}' fails at event {pos} of the run "
                           f"(thr={t['thr']}, episodes={c['cfg']['episodes']}, seed={c['cfg']['seed']})",
-                          {"case": strip(c), "clause": tag, "position": pos})
+                          {"case": strip(origin), "clause": tag, "position": pos, "trace": c["shape"]})
         for kind, tag, pos in sorted(tdrift):
             ctx.count(f"drift:{kind}:{tag}")
         kinds = sorted({(kind, tag) for kind, tag, _ in tdrift})
         for kind, tag in kinds:
-            ctx.drift(f"{kind}:{tag}", {"case": digest(strip(c)), "positions": [p for k2, t2, p in sorted(tdrift) if (k2, t2) == (kind, tag)][:5]})
+            ctx.drift(f"{kind}:{tag}", {"case": digest(strip(origin)), "positions": [p for k2, t2, p in sorted(tdrift) if (k2, t2) == (kind, tag)][:5]})
         # a clause failing on the table at an episode end = on the table a shorter run returns: confirm by running it
-        if confirm and not tfail:
+        if confirm and not tfail and origin is c:
             ends = [p for kind, tag, p in tdrift if kind == "epend"]
             if ends:
                 ep = sum(1 for e in t["ev"][:min(ends)] if e["k"] == "end")
@@ -889,6 +945,11 @@ def run(ctx):
         "failing there is confirmed by actually running the shorter configuration before it is reported",
         "floats are logged as round(x*SC); tolerances of the integer judge are derived in the header of spec/C17_RMax.tla "
         "and model-checked not to reject the exact machine (JudgeAcceptsMachine)",
+        "facts about raw 53-bit floats that 32-bit integers cannot hold (dense ranks of a returned row, equality with the "
+        "correctly rounded rmax/(1-gamma), exact rational Bellman residual below the configured tolerance + B*2^-40) are "
+        "established by the recorder with Fractions and logged as flags; the spec decides which pairs they apply to and "
+        "checks that the recorder's model equals its own",
+        "for a reused learner both Results are judged; the earlier one is only queried after the later train_on",
         "every TLA+ verdict, the bookkeeping and the exact fixed point are reproduced by an independent Python "
         "implementation (integers / Fractions); a disagreement is a machinery failure"]
     run_mc(ctx, rng, 30 if quick else 400, 2 if quick else 16)
@@ -913,7 +974,7 @@ def selftest(ctx):
     def mutate(i, t):
         steps = [j for j, e in enumerate(t["ev"]) if e["k"] == "step"]
         fin = t["ev"][-1]
-        kind = ["unknown", "transition", "drop", "known", "policy", "reward"][i % 6] if i < 36 else None
+        kind = ["unknown", "transition", "drop", "known", "policy", "reward", "ulp", "exactres"][i % 8] if i < 48 else None
         N, K = t["N"], t["K"]
         if kind == "unknown":
             for s in range(N):
@@ -921,6 +982,19 @@ def selftest(ctx):
                     fin["q"][s][0] -= t["SC"] // 2         # an untried pair reported half a unit below Vmax
                     plan[t["tag"]] = "unknown-pair-not-optimistic"
                     return
+        if kind == "ulp":
+            for s in range(N):
+                if len(fin["xo"][s]) == K and t["abs"][s] == 1:
+                    fin["xo"][s][K - 1] = 0                 # an untried pair one ulp off the optimistic value
+                    plan[t["tag"]] = "unknown-pair-not-exactly-optimistic"
+                    return
+        if kind == "exactres":
+            for s in range(N):
+                for a in range(K):
+                    if len(fin["xr"][s]) == K and fin["xc"][s][a] >= t["thr"]:
+                        fin["xr"][s][a] = 0                 # a known pair whose exact residual exceeds the tolerance
+                        plan[t["tag"]] = "empirical-bellman-residual"
+                        return
         if kind == "transition" and steps:
             j = steps[len(steps) // 2]
             e = t["ev"][j]
